@@ -6,6 +6,7 @@ import (
 	"encoding/asn1"
 	"errors"
 	"fmt"
+	ccpb "github.com/google/go-tdx-guest/proto/checkconfig"
 	"math/big"
 	"time"
 
@@ -359,10 +360,69 @@ func runC05(r *mc.Run) {
 		})
 	}
 	world.SetLogLevel(0)
+	c05Routes(r, envs[0])
 	c05Positions(r, envs[0])
 	world.SetLogLevel(2)
 	c05Positions(r, envs[0])
 	world.SetLogLevel(0)
+}
+
+// c05Routes: the switches reach the verifier through a root-of-trust configuration exactly as through options set by
+// hand: for each of the four combinations of check_crl / get_collateral and a clean resp. leaf-revoking PCK CRL the
+// verdict through verify.RootOfTrustToOptions equals the direct one, and revocation checking without collateral
+// fetching fails on both routes.
+func c05Routes(r *mc.Run, e *c05env) {
+	w, pki := e.w, e.pki
+	for _, crl := range []bool{false, true} {
+		for _, gc := range []bool{false, true} {
+			for _, revoked := range []bool{false, true} {
+				id := fmt.Sprintf("route/check_crl=%v,get_collateral=%v,leaf-revoked=%v", crl, gc, revoked)
+				if !r.Want(id) {
+					continue
+				}
+				mkGetter := func() *world.Getter {
+					g := w.Getter.Clone()
+					g.Responses[world.URLQeIdentity] = world.Response{Header: map[string][]string{world.HdrQeIdentity: {world.IssuerChainHeader(e.tcb2, pki.Root)}},
+						Body: world.SignedBody("enclaveIdentity", w.QeRaw, e.tcb2Key)}
+					if revoked {
+						g.Responses[world.URLPckCrl("platform")] = world.Response{Header: w.PckHdr, Body: world.MakeCRL(world.CRLSpec{Issuer: pki.Inter, Signer: pki.InterKey, Revoked: []*big.Int{e.leafSN}})}
+					}
+					return g
+				}
+				now := w.Now
+				direct := &verify.Options{GetCollateral: gc, CheckRevocations: crl, Getter: mkGetter(), Now: &now, TrustedRoots: w.Roots}
+				derr := world.SafeVerifyRaw(w.Raw(), direct)
+				var viaCfg *verify.Options
+				var cerr error
+				func() {
+					defer world.Recover(&cerr)
+					viaCfg, cerr = verify.RootOfTrustToOptions(&ccpb.RootOfTrust{Cabundles: []string{string(world.PEM(pki.Root))}, CheckCrl: crl, GetCollateral: gc})
+				}()
+				out := "config-error"
+				if cerr == nil && viaCfg != nil {
+					now2 := w.Now
+					viaCfg.Now, viaCfg.Getter = &now2, mkGetter()
+					verr := world.SafeVerifyRaw(w.Raw(), viaCfg)
+					out = verdict(verr)
+					switch {
+					case world.IsPanic(verr):
+					case crl && !gc && verr == nil:
+						r.Violate("route:revocation-without-collateral-accepted", id, "check_crl without get_collateral, given through a root-of-trust configuration, is accepted", nil)
+						out = "accept!"
+					case (verr == nil) != (derr == nil):
+						r.Violate("route:config-differs-from-direct", id, fmt.Sprintf("options from a root-of-trust configuration give %q, the same switches set by hand give %q", errStr(verr), errStr(derr)), nil)
+						out += "!=direct"
+					case crl && gc && revoked && verr == nil:
+						r.Violate("route:revoked-leaf-accepted", id, "a revoked leaf is accepted with check_crl and get_collateral given through a root-of-trust configuration", nil)
+						out = "accept!"
+					}
+				} else if !world.IsPanic(cerr) {
+					r.Violate("route:config-refused", id, "a root-of-trust configuration with an inline bundle is refused: "+errStr(cerr), nil)
+				}
+				r.Eval(id, true, "route:"+out)
+			}
+		}
+	}
 }
 
 // c05Positions: the revoked certificate's entry at EVERY index of CRLs of several sizes (one entry .. 300 entries;
